@@ -663,6 +663,9 @@ func run(cfg *hv.RunCfg) error {
 			kind = "dynblock-marked-foreach-block-count"
 		case j.kind == "dyn":
 			kind = "dynblock-mark-laundered"
+		case j.kind == "body" && bodyCondErrorDropped(text, ctx1, ctx2):
+			// the same finding inside an attribute expression decoded by hcldec
+			kind = "cond-unselected-arm-error-dropped"
 		case j.kind == "body":
 			kind = "decode-mark-laundered"
 		}
@@ -680,4 +683,22 @@ func run(cfg *hv.RunCfg) error {
 	}
 	rep.CaseFiles = names
 	return rep.Write(cfg.Out)
+}
+
+// bodyCondErrorDropped applies condUnselectedErrorDiffers to every attribute expression of a body text.
+func bodyCondErrorDropped(text string, ctx1, ctx2 *hcl.EvalContext) bool {
+	file, pd := hclsyntax.ParseConfig([]byte(text), "b.hcl", hcl.InitialPos)
+	if pd.HasErrors() {
+		return false
+	}
+	body, ok := file.Body.(*hclsyntax.Body)
+	if !ok {
+		return false
+	}
+	for _, name := range hv.SortedKeys(body.Attributes) {
+		if condUnselectedErrorDiffers(body.Attributes[name].Expr, ctx1, ctx2) {
+			return true
+		}
+	}
+	return false
 }
